@@ -381,6 +381,8 @@ class AbsExec:
                             raise FactsError("inlining depth exceeded at %s" % fk.d)
                         rs = sub.run_shared(cb, args)
                         self.steps = sub.steps
+                        if hasattr(self.domain, "select_inline_results"):
+                            rs = self.domain.select_inline_results(self, rs)
                         vals = [r[0] for r in rs]
                         val = vals[0] if vals and all(_same(v, vals[0]) for v in vals) else (self.domain.join(self, vals) if hasattr(self.domain, "join") and vals else TOP)
                     else:
